@@ -166,6 +166,7 @@ def build_reference(repo: str) -> dict:
         inline_return_temps(tree)
         inline_test_temps(tree)
         normalise_if_polarity(tree)
+        flatten_else_after_terminator(tree)
         for q, fn in top_level_functions(tree):
             order = renamable_names(fn)
             if order:
@@ -351,6 +352,81 @@ def normalise_if_polarity(tree: ast.Module) -> int:
     return v.n
 
 
+_TERMINATORS = (ast.Return, ast.Raise, ast.Continue, ast.Break)
+
+
+_FLIP = {ast.Is: ast.IsNot, ast.IsNot: ast.Is, ast.Eq: ast.NotEq, ast.NotEq: ast.Eq, ast.In: ast.NotIn, ast.NotIn: ast.In,
+         ast.Lt: ast.GtE, ast.GtE: ast.Lt, ast.LtE: ast.Gt, ast.Gt: ast.LtE}
+
+
+def _size(stmts) -> int:
+    return sum(1 for s_ in stmts for _ in ast.walk(s_))
+
+
+def _guard_key(stmts):
+    """Which of two block-ending arms reads as the guard clause: the one with fewer statements, then a raise before a loop jump before a return, then the shorter."""
+    last = stmts[-1]
+    kind = 0 if isinstance(last, ast.Raise) else 1 if isinstance(last, (ast.Continue, ast.Break)) else 2
+    nst = sum(1 for s_ in stmts for x in ast.walk(s_) if isinstance(x, ast.stmt))
+    return (nst, kind, _size(stmts))
+
+
+def _negate(test):
+    if isinstance(test, ast.UnaryOp) and isinstance(test.op, ast.Not):
+        return test.operand
+    if isinstance(test, ast.Compare) and len(test.ops) == 1 and type(test.ops[0]) in _FLIP:
+        return ast.copy_location(ast.Compare(left=test.left, ops=[_FLIP[type(test.ops[0])]()], comparators=test.comparators), test)
+    return ast.copy_location(ast.UnaryOp(op=ast.Not(), operand=test), test)
+
+
+class _ElseFlattener(ast.NodeTransformer):
+    """`if T: ...; return` / `else: rest` -> `if T: ...; return`, then `rest` in the enclosing block (and the mirror image,
+    when only the else-arm ends the block: `if T: rest else: ...; return` -> `if not T`-free form is left alone)."""
+
+    def __init__(self):
+        self.n = 0
+
+    def _fix(self, body):
+        out = []
+        for st in body:
+            both = isinstance(st, ast.If) and _swappable(st) and isinstance(st.body[-1], _TERMINATORS) and isinstance(st.orelse[-1], _TERMINATORS)
+            if both and _guard_key(st.orelse) < _guard_key(st.body):
+                # both arms end the block: the shorter one is the guard clause, whichever way the test was written
+                st.test, st.body, st.orelse = _negate(st.test), st.orelse, st.body
+            if isinstance(st, ast.If) and st.orelse and st.body and isinstance(st.body[-1], _TERMINATORS) and not (len(st.orelse) == 1 and isinstance(st.orelse[0], ast.If)):
+                rest, st.orelse = st.orelse, []
+                out.append(st)
+                out.extend(self._fix(rest))
+                self.n += 1
+            elif isinstance(st, ast.If) and _swappable(st) and isinstance(st.orelse[-1], _TERMINATORS):
+                # only the else-arm ends the block: it becomes the guard clause
+                rest = st.body
+                st.test, st.body, st.orelse = _negate(st.test), st.orelse, []
+                out.append(st)
+                out.extend(self._fix(rest))
+                self.n += 1
+            else:
+                out.append(st)
+        return out
+
+    def generic_visit(self, node):
+        super().generic_visit(node)
+        for field in ("body", "orelse", "finalbody"):
+            b = getattr(node, field, None)
+            if isinstance(b, list) and b and isinstance(b[0], ast.stmt):
+                # an `elif` chain keeps its shape (the chain is what exhaustiveness rules look at)
+                if field == "orelse" and isinstance(node, ast.If) and len(b) == 1 and isinstance(b[0], ast.If):
+                    continue
+                setattr(node, field, self._fix(b))
+        return node
+
+
+def flatten_else_after_terminator(tree: ast.Module) -> int:
+    v = _ElseFlattener()
+    v.visit(tree)
+    return v.n
+
+
 class _LocalAnnotationStripper(ast.NodeTransformer):
     def __init__(self):
         self.depth = 0
@@ -391,6 +467,7 @@ def canonicalise_module(modname: str, tree: ast.Module) -> int:
     inline_return_temps(tree)
     inline_test_temps(tree)
     normalise_if_polarity(tree)
+    flatten_else_after_terminator(tree)
     ref = load_reference()
     n = 0
     for q, fn in top_level_functions(tree):
